@@ -92,6 +92,19 @@ mut("S19-open-type-not-repositioned-after-content", ["C01", "C05"], "src/rw/uper
     "        if result.is_ok() && write_position % 16 != 0 {\n            // on successful read, skip the slice\n            self.bits.set_pos(write_position);\n        }",
     "padding bits of an open type are not skipped when it happens to end on an even octet")
 
+mut("S20-list-capacity-from-untrusted-length", ["C04"], "src/rw/uper.rs",
+    "                    let mut vec = Vec::with_capacity((len as usize).min(r.bits.remaining()));",
+    "                    let mut vec = Vec::with_capacity(len as usize);",
+    "part of the original defect D10: a corrupted length determinant of a SEQUENCE OF with a huge SIZE bound reserves gigabytes from a few input bytes (oracle O3 / process abort)")
+mut("S21-null-not-counted-as-field", ["C01"], "src/rw/uper.rs",
+    "        // no content bits, but it still is a field of the enclosing sequence\n        self.write_bit_field_entry(false, true)?;\n        self.with_buffer(|_w| Ok(()))",
+    "        Ok(())",
+    "the defect found by the generated zoo (writer side only: the reader still counts the NULL): needs an extensible SEQUENCE with a mandatory NULL in the root and an addition")
+
+mut("S22-set-extension-additions-sorted-by-tag", ["C05"], "asn1rs-model/src/generate/walker.rs",
+    "            (a.0, (!a.0).then_some(&a.1.tag)).cmp(&(b.0, (!b.0).then_some(&b.1.tag)))",
+    "            (a.0, &a.1.tag).cmp(&(b.0, &b.1.tag))",
+    "compiler side; the defect found by the generated version chains: only visible across versions of a SET with explicit tags whose later addition has a smaller tag")
 
 def sh(cmd, cwd=None, timeout=3600):
     p = subprocess.run(cmd, shell=True, cwd=cwd, stdout=subprocess.PIPE, stderr=subprocess.STDOUT, text=True, timeout=timeout)
